@@ -239,7 +239,7 @@ fn cmd_gen(args: &[String]) {
     for k in 0..n {
         let odd = rng.chance(1, 3);
         let (tag, m) = if k % 2 == 0 {
-            let allow_cycle = cyclic_budget > 0 && rng.chance(1, 12);
+            let allow_cycle = cyclic_budget > 0 && rng.chance(1, 6);
             let m = advgen::gen_fk_models(&mut rng, odd, allow_cycle);
             if m.iter().any(|t| advgen::fk_cycle_from(&m, t)) {
                 cyclic_budget = cyclic_budget.saturating_sub(1);
